@@ -16,6 +16,13 @@ and `RLIMIT_AS` 3 GB: the process must end BY ITSELF with exit status 0 and a JS
 or limit error) — never by timeout, signal, panic (101) or abort (134); a non-terminating program must be
 ended by the tick- or stack-limit error specifically.
 
+One budget per RUN (not per evaluation): files with many tests (3, 5, 10, 40; several of them runaway loops,
+unbounded recursion, growing strings) go through both entry points (`sandboxed-test` with the cursor outside
+every test, `playground-run`): the run must end as fast as a single runaway test does, runaway tests that print a
+marker per 1000 iterations must not execute more iterations in total than the budget allows, and the runner hook
+`testrun` (src/verif_runner.rs) under small limits must end with `env.ticks ≤ limit + #tests` and agree with the
+runner model `testrun_model` (Props/C25 `tests_one_budget`) on verdicts, tick count and trace.
+
 What the model cannot exhibit, and what this check therefore records as findings with fixed probes
 (DESIGN §9): the cost of ONE tick is not bounded — (a) heap: `s = s ^ s` doubles a string per iteration,
 the process is still copying after the timeout and aborts on allocation failure (rc 134) well inside the tick
@@ -32,6 +39,7 @@ import shutil
 from . import common
 from . import machine_corr as MC
 from . import prog_core_gen as PG
+from .common import hexs as hexs_
 
 LEAN_MODULES = ["GardenVerif.Props.C25"]
 TIMEOUT = 20
@@ -45,6 +53,7 @@ KNOWN_FAMILY_KEYS = {
     "nest-option": "C25/wallclock-deep-nesting-within-budget",
     "nest-tuple": "C25/wallclock-deep-nesting-within-budget",
     "nest-source": "C25/native-stack-deep-nesting",
+    "nest-unbounded": "C25/native-stack-runtime-nesting",
 }
 
 
@@ -116,6 +125,49 @@ def gen_nesting(kind, n):
 
 def gen_doubling(n):
     return "double-string", "", 'let s = "ab" let i = 0 while i < %d { s = s ^ s i += 1 } 1' % n, "any"
+
+
+# ------------------------------------------------------------------------------ files with MANY tests
+def gen_multi_test(rng, n, marker=False):
+    """A file with `n` tests, several of them runaway. -> (funs, [(name, body, runaway?)])."""
+    funs = "fun helper() {}\nfun rec(n) { rec(n + 1) }\nfun id(a) { a }\n"
+    tests = []
+    n_run = 0
+    for k in range(n):
+        r = rng.random()
+        name = "t%d" % (k + 1)
+        if marker:
+            kind = "mark"
+        elif r < 0.55 or (k >= n - 2 and n_run < 2):
+            kind = rng.choice(["spin", "spin", "spin-body", "alloc"])
+        elif r < 0.7:
+            kind = "rec"
+        elif r < 0.85:
+            kind = "pass"
+        else:
+            kind = "err"
+        if kind == "spin":
+            body = "while True {}"
+        elif kind == "spin-body":
+            body = "let c = 0 while True { c = id(c) + 1 }"
+        elif kind == "alloc":
+            body = 'let s = "" while True { s = s ^ "x" }'
+        elif kind == "mark":
+            body = ('let i = 0 while True { i += 1 if i == 1000 { println("%s") i = 0 } }' % name)
+        elif kind == "rec":
+            body = "rec(0)"
+        elif kind == "pass":
+            body = "let a = 1 + %d id(a)" % k
+        else:
+            body = "nosuch%d" % k
+        run = kind in ("spin", "spin-body", "alloc", "mark")
+        n_run += run
+        tests.append((name, body, run))
+    return funs, tests
+
+
+def render_tests(funs, tests, tail=""):
+    return funs + "".join("test %s { %s }\n" % (n, b) for n, b, _ in tests) + tail
 
 
 # ------------------------------------------------------------------------------ running the CLI
@@ -228,14 +280,17 @@ def _run(ctx, rng, d):
               gen_nesting("nest-source", 50),
               # fixed probes of the recorded findings
               gen_nesting("nest-list", 600), gen_nesting("nest-option", 6000), gen_nesting("nest-tuple", 6000),
-              gen_nesting("nest-source", 3000), gen_doubling(40)]
+              gen_nesting("nest-source", 3000), gen_doubling(40),
+              ("nest-unbounded", "", open(os.path.join(common.ROOT, "corpus", "C25", "unbounded-list-nesting.gdn")).read().strip(),
+               "any")]
     ctx.rule = ("non-terminating programs from 9 shapes (while True / while with a never-changing condition / nested loops / "
                 "unbounded, mutual and closure-self recursion / recursion with a loop per level / loop inside a function / "
                 "loop of calls) with random loop bodies of the core fragment; bounded recursion at depths around the stack "
                 "limit; random terminating core programs as controls; value-nesting (list / Option / tuple / source-literal) "
                 "and string-doubling probes at fixed sizes. Each runs through `playground-run` and, wrapped in a `test`, through "
                 "`sandboxed-test` under timeout %d s + RLIMIT_AS 3 GB; and in-process (hook) vs the model with the real limits "
-                "and with small random limits. Non-trivial = the run is ended by a limit error (or is a probe of a finding)."
+                "and with small random limits; files with 3/5/10/40 tests (several runaway) through both entry points and the "
+                "runner hook vs the runner model under small limits. Non-trivial = the run is ended by a limit error (or is a probe of a finding)."
                 % TIMEOUT)
 
     jobs = []
@@ -255,9 +310,10 @@ def _run(ctx, rng, d):
 
     def do(job):
         entry, ix, fam, defs, body, expect = job
+        t0 = 180 if (fam == "nest-unbounded" and not ctx.quick()) else TIMEOUT   # thorough: wait for the abort itself
         if entry == "playground-run":
             src = defs + body + "\n"
-            rc, so, se = run_playground(ctx, d, ix, src, TIMEOUT)
+            rc, so, se = run_playground(ctx, d, ix, src, t0)
             if rc == -9999 and fam not in KNOWN_FAMILY_KEYS:
                 rc, so, se = run_playground(ctx, d, ix, src, 120)   # loaded machine: once more, alone-ish
         else:
@@ -280,6 +336,9 @@ def _run(ctx, rng, d):
     ctx.cov["end_histogram"] = ends
     ctx.sample({"entry": "playground-run", "src": cases[0][1] + cases[0][2], "expected": cases[0][3]})
     ctx.sample({"entry": "sandboxed-test", "src": cases[3][1] + "test t { " + cases[3][2] + " }"})
+
+    # ---------------------------------------------------------------- files with many tests: ONE budget per run
+    multi_tests(ctx, rng, d, L, D)
 
     # ---------------------------------------------------------------- correspondence with the model
     core = [(fam, defs + body + "\n", expect) for fam, defs, body, expect in cases]
@@ -311,6 +370,114 @@ def _run(ctx, rng, d):
         "Tables.builtinArms blocks",
         "sandboxed-test: every `test` shares one Env, ticks are cumulative over the tests of a file",
     ]
+
+
+MARK_TICKS = 5000      # one marker = 1000 loop iterations of >= 5 ticks each (in fact about 14)
+
+
+def multi_tests(ctx, rng, d, L, D):
+    """Sandboxed runs that evaluate SEVERAL tests in one go share one tick budget: the whole run ticks at most
+    L + #tests times (Props/C25 `tests_one_budget`), so it ends as fast as a single runaway test does."""
+    from . import c26 as C26
+    sizes = ctx.scale([3, 5, 10, 40], [3, 4, 5, 8, 10, 20, 40, 80])
+    files = []
+    for n in sizes:
+        for rep in range(ctx.scale(1, 3)):
+            files.append((n, False) + gen_multi_test(rng, n))
+    files += [(n, True) + gen_multi_test(rng, n, marker=True) for n in ctx.scale([3, 4], [3, 4, 6])]
+    jobs = []
+    for ix, (n, marker, funs, tests) in enumerate(files):
+        jobs.append(("playground-run", ix, n, marker, funs, tests))
+        jobs.append(("sandboxed-test", ix, n, marker, funs, tests))
+
+    def do(job):
+        entry, ix, n, marker, funs, tests = job
+        src = render_tests(funs, tests, '"done"\n' if entry == "playground-run" else "")
+        path = os.path.join(d, "m%s%d.gdn" % (entry[0], ix))
+        with open(path, "w") as fh:
+            fh.write(src)
+        args = ["playground-run", path] if entry == "playground-run" else ["sandboxed-test", path, "0"]
+        r = ctx.garden(args, timeout=TIMEOUT, cwd=d, env={"RUST_BACKTRACE": "0"})
+        if r[0] == -9999:
+            r = ctx.garden(args, timeout=120, cwd=d, env={"RUST_BACKTRACE": "0"})
+        return job, src, r
+    ends = {}
+    for (entry, ix, n, marker, funs, tests), src, (rc, so, se) in common.pmap(do, jobs, workers=max(4, common.NPROC // 2)):
+        fam = "multi-test-%d" % n
+        n_run = sum(1 for t in tests if t[2])
+        ctx.case((entry, src), n_run >= 2)
+        if rc == -9999:
+            ctx.fail("C25/timeout/%s/multi-test" % entry,
+                     "sandboxed run of a file with %d tests (%d runaway loops) did not end within 120 s: the tests do not "
+                     "share one step budget" % (n, n_run), src=src, entry=entry, n_tests=n)
+            ends["timeout"] = ends.get("timeout", 0) + 1
+            continue
+        if rc != 0:
+            ctx.fail("C25/crash/%s/multi-test" % entry, "exit status %d: %s" % (rc, (se or "").strip()[-300:]), src=src,
+                     entry=entry)
+            continue
+        lines = [l for l in so.strip().split("\n") if l.strip()]
+        try:
+            last = json.loads(lines[-1])
+        except Exception:
+            ctx.fail("C25/no-answer/%s/multi-test" % entry, "no JSON answer: %r" % so[-300:], src=src, entry=entry)
+            continue
+        ends["answered"] = ends.get("answered", 0) + 1
+        if entry == "sandboxed-test":
+            got = last.get("tests") or {}
+            missing = [t[0] for t in tests if t[0] not in got]
+            if missing:
+                ctx.fail("C25/no-answer/sandboxed-test/multi-test", "tests without a verdict: %s" % missing[:5], src=src)
+            for name, body, run in tests:
+                if run and name in got and got[name].get("description") != "exceeded resource limit":
+                    ctx.fail("C25/wrong-end/sandboxed-test/multi-test", "runaway test %s ended with %r" %
+                             (name, got[name].get("description")), src=src)
+        if marker:
+            marks = {t[0]: so.count('"%s\\n"' % t[0]) for t in tests}
+            total = sum(marks.values())
+            if total * MARK_TICKS > L + n:
+                ctx.fail("C25/steps-exceed-budget/%s/multi-test" % entry,
+                         "a sandboxed run over %d runaway tests executed %d x 1000 loop iterations (%s) — at least %d ticks, "
+                         "the budget of the whole run is %d" % (n, total, marks, total * MARK_TICKS, L), src=src, entry=entry)
+    ctx.cov["multi_test_cli_runs"] = ends
+
+    # in-process: runner hook vs runner model at small limits; total ticks at the end of the run
+    corr = []
+    for n in ctx.scale([3, 5, 8], [3, 5, 8, 12, 20]):
+        for rep in range(ctx.scale(2, 6)):
+            funs, tests = gen_multi_test(rng, n)
+            corr.append((n, render_tests(funs, tests), rng.choice([60, 300, 1500]), rng.choice([5, 40])))
+    impl = [C26.parse_testrun(r, True) for r in
+            ctx.garden_batch(["testrun %s - %d %d trace" % (hexs_(s), tl, sl) for _, s, tl, sl in corr], timeout=600)]
+    mlines = []
+    for (n, s, tl, sl), i in zip(corr, impl):
+        items = i.get("items") if i["kind"] == "ok" else None
+        mlines.append("testrun_model - %d %d 400000 trace %s" % (tl, sl, items if items else "(bad"))
+    model = [C26.parse_testrun(r, False) for r in ctx.model_batch(mlines, timeout=600)]
+    agree = 0
+    for (n, s, tl, sl), i, m in zip(corr, impl, model):
+        ctx.case(("testrun", tl, sl, s), True)
+        inp = dict(src=s, tick_limit=tl, stack_limit=sl)
+        if i["kind"] != "ok":
+            ctx.disagree("testrun(limits)", inp, None, i.get("raw"), detail="hook op failed")
+            continue
+        mm = re.match(r"\(end (\d+) ", i["end"])
+        if mm and int(mm.group(1)) > tl + n:
+            ctx.fail("C25/ticks-exceed-limit/multi-test", "a run of %d tests under tick limit %d ended at tick %s (> limit + "
+                     "#tests): the limit did not stay constant over the run" % (n, tl, mm.group(1)), src=s, tick_limit=tl,
+                     verdicts=i["verdicts"])
+        if m["kind"] == "unsupported":
+            continue
+        if m["kind"] != "ok":
+            ctx.disagree("testrun(limits)", inp, m.get("raw"), i["verdicts"], detail="model did not finish")
+            continue
+        for key in ("verdicts", "end", "out", "trace"):
+            if i[key] != m[key]:
+                ctx.disagree("testrun(limits)", inp, str(m[key])[:300], str(i[key])[:300], detail=key)
+                break
+        else:
+            agree += 1
+    ctx.cov["multi_test_runner_vs_model"] = agree
 
 
 def check_pairs(ctx, items, res, tl, sl, trace=False):
